@@ -19,7 +19,6 @@ import (
 	"sync"
 
 	"github.com/openGemini/openGemini/lib/logger"
-	"github.com/openGemini/openGemini/lib/numberenc"
 	"github.com/openGemini/openGemini/lib/record"
 	"github.com/openGemini/openGemini/lib/util/lifted/vm/protoparser/influx"
 	"go.uber.org/zap"
@@ -114,9 +113,11 @@ func (r *FirstLastReader) Read(ctx *ReadContext, copied bool, ioPriority int) er
 		// can directly use the min/max value in the pre-aggregated data as the first/last
 		val, tm, ok := r.readFirstOrLastFromPreAgg(ctx, minMaxSeg, colMeta)
 		if ok {
-			rowIndex := 0
-			if !r.first {
-				rowIndex = int(numberenc.UnmarshalUint32(r.cm.timeMeta().preAgg)) - 1
+			// the point is the first / last row of this segment; the auxiliary columns are read
+			// at its index within the segment
+			rowIndex, e := r.edgeRowIndex(ctx, &tmMeta.entries[r.segIndex], copied, ioPriority)
+			if e != nil {
+				return e
 			}
 			err = r.after(val, tm, rowIndex, ctx, copied, ioPriority)
 			break
@@ -189,7 +190,10 @@ func (r *FirstLastReader) ReadTime(ctx *ReadContext, copied bool, ioPriority int
 			// query time range:        --------------
 			// segment time range: ---------------
 			// If there is no null value, the last row of data is the result
-			val, tm, rowIndex = maxTime, maxTime, int(numberenc.UnmarshalUint32(r.cm.timeMeta().preAgg))-1
+			val, tm = maxTime, maxTime
+			if rowIndex, err = r.edgeRowIndex(ctx, &tmMeta.entries[r.segIndex], copied, ioPriority); err != nil {
+				return err
+			}
 		} else {
 			if err := r.readTimeColVal(ctx, &tmMeta.entries[r.segIndex], copied, ioPriority); err != nil {
 				return err
@@ -207,6 +211,23 @@ func (r *FirstLastReader) ReadTime(ctx *ReadContext, copied bool, ioPriority int
 		break
 	}
 	return err
+}
+
+// edgeRowIndex is the index, within the current segment as it is decoded, of the row that holds
+// the segment's first (r.first) or last time. It matters only when auxiliary columns are read
+// next to the single call (see after): a descending read decodes the columns newest first, and
+// a chunk of several segments has fewer rows in a segment than in the chunk.
+func (r *FirstLastReader) edgeRowIndex(ctx *ReadContext, tmSeg *Segment, copied bool, ioPriority int) (int, error) {
+	if !(r.dst.Schema.Len() > 2 && len(ctx.ops) == 1) {
+		return 0, nil
+	}
+	if r.first == ctx.Ascending {
+		return 0, nil
+	}
+	if err := r.readTimeColVal(ctx, tmSeg, copied, ioPriority); err != nil {
+		return 0, err
+	}
+	return r.timeCol.Length() - 1, nil
 }
 
 func (r *FirstLastReader) Release() {
